@@ -90,7 +90,7 @@ Definition c11_pred (cached plain : list (outcome bool)) : bool := list_eqb outc
 
 (* defective keying: context-qualified and plain requests share one slot *)
 Definition strip_ctx (k : ckey) : ckey :=
-  match k with CKCtx _ rv => CKPlain rv | other => other end.
+  match k with CKCtx4 _ _ _ _ rv => CKPlain rv | other => other end.
 
 Section Shared.
   Variable ptab : text -> option expr.
